@@ -10,7 +10,8 @@ import ast
 import re
 
 from ..engine.program import AnalysisError, dotted, src, walk_no_nested, call_name, enclosing_stmt
-from ..engine import flow, symexec
+from ..engine import flow, symexec, staticeval
+from ..engine.argswap import bind_args
 
 RG = "src/read_groups.py"
 LRC = "src/long_read_counter.py"
@@ -518,7 +519,140 @@ def p7(prog, ctx):
     ctx.floor("P7", "index hand-over sites (make_alignment_tuple calls, get() yield, get_group_id calls)", n, 5)
 
 
+# docs/cmd.md `file:FILE:READ_COL:GROUP_COL:DELIM`: the role each documented field plays in the table loader.  The read column is the
+# one the map is keyed by (it is looked up by the alignment's query name), the group column the one stored as the value.
+DOC_ROLE = {"FILE": "file", "READ_COL": "key", "GROUP_COL": "value", "DELIM": "delim"}
+DOC_DEFAULT = {"tab": "\t"}
+
+
+def _doc_file_syntax(prog):
+    import os
+    doc = os.path.join(prog.root, "docs", "cmd.md")
+    if not os.path.exists(doc):
+        return None
+    text = open(doc).read()
+    m = re.search(r"`file:([A-Z_]+(?::[A-Z_]+)+)`", text)
+    if not m:
+        return None
+    fields = m.group(1).split(":")
+    defaults = {}
+    for f in fields:
+        d = re.search(r"`%s`\s+is\s+[^`]*?\((\w+) if not set\)" % re.escape(f), text)
+        if d:
+            tok = d.group(1)
+            defaults[f] = DOC_DEFAULT.get(tok, int(tok) if tok.isdigit() else tok)
+    return fields, defaults
+
+
+def _loader_roles(prog, ctx):
+    """parameter name of load_table -> role (file / key / value / delim), read off its body"""
+    f = prog.func(RG, "load_table")
+    params = [a.arg for a in f.args.args]
+    env = {}
+    for st in walk_no_nested(f):
+        if isinstance(st, ast.Assign) and len(st.targets) == 1 and isinstance(st.targets[0], ast.Name):
+            env.setdefault(st.targets[0].id, []).append(st.value)
+    roles = {}
+    rets = [r.value.id for r in walk_no_nested(f) if isinstance(r, ast.Return) and isinstance(r.value, ast.Name)]
+    split_of = None
+    for st in walk_no_nested(f):
+        if isinstance(st, ast.Assign) and len(st.targets) == 1 and isinstance(st.targets[0], ast.Subscript) \
+                and isinstance(st.targets[0].value, ast.Name) and st.targets[0].value.id in rets:
+            for role, e in (("key", st.targets[0].slice), ("value", st.value)):
+                defs = env.get(e.id, []) if isinstance(e, ast.Name) else [e]
+                if len(defs) != 1 or not isinstance(defs[0], ast.Subscript) or not isinstance(defs[0].slice, ast.Name) \
+                        or defs[0].slice.id not in params or not isinstance(defs[0].value, ast.Name):
+                    return None
+                roles[defs[0].slice.id] = role
+                split_of = defs[0].value.id
+    if split_of is None:
+        return None
+    sd = env.get(split_of, [])
+    if len(sd) != 1 or not (isinstance(sd[0], ast.Call) and isinstance(sd[0].func, ast.Attribute) and sd[0].func.attr == "split"
+                            and len(sd[0].args) == 1 and isinstance(sd[0].args[0], ast.Name) and sd[0].args[0].id in params):
+        return None
+    roles[sd[0].args[0].id] = "delim"
+    for c in walk_no_nested(f):
+        if isinstance(c, ast.Call) and (dotted(c.func) or "").split(".")[-1] == "open" and c.args and isinstance(c.args[0], ast.Name) \
+                and c.args[0].id in params:
+            roles[c.args[0].id] = "file"
+    return roles if sorted(roles.values()) == ["delim", "file", "key", "value"] else None
+
+
+def p9(prog, ctx):
+    """`--read_group file:FILE:READ_COL:GROUP_COL:DELIM`: the parser hands every documented field to the loader parameter that plays the
+    documented role, with the documented default when the field is left out."""
+    q = "get_file_grouping_properties"
+    parser = prog.func(RG, q)
+    doc = _doc_file_syntax(prog)
+    if doc is None:
+        ctx.undecided("P9", parser, q, "the `file:FILE:...` syntax line of docs/cmd.md was not found")
+        return
+    fields, defaults = doc
+    if any(f not in DOC_ROLE for f in fields):
+        ctx.undecided("P9", parser, q, "documented fields %s are not the ones the role table knows" % fields)
+        return
+    roles = _loader_roles(prog, ctx)
+    if roles is None:
+        ctx.undecided("P9", prog.func(RG, "load_table"), "load_table", "key / value / delimiter / file parameters of the loader not recognised")
+        return
+    # tuple position -> loader parameter, through prepare_read_groups and split_read_group_table
+    prep = prog.func(RG, "prepare_read_groups")
+    split = prog.func(RG, "split_read_group_table")
+    loader = prog.func(RG, "load_table")
+    unpack = [st for st in walk_no_nested(prep) if isinstance(st, ast.Assign) and isinstance(st.value, ast.Call)
+              and call_name(st.value) == q and isinstance(st.targets[0], ast.Tuple)
+              and all(isinstance(e, ast.Name) for e in st.targets[0].elts)]
+    calls = [c for c in walk_no_nested(prep) if isinstance(c, ast.Call) and call_name(c) == "split_read_group_table"]
+    inner = [c for c in walk_no_nested(split) if isinstance(c, ast.Call) and call_name(c) == "load_table"]
+    if len(unpack) != 1 or len(calls) != 1 or len(inner) != 1:
+        ctx.undecided("P9", prep, "prepare_read_groups", "the parser result is not unpacked once and handed to split_read_group_table -> load_table")
+        return
+    names = [e.id for e in unpack[0].targets[0].elts]
+    b1 = {pn: a.id for pn, a in bind_args(calls[0], split).items() if isinstance(a, ast.Name)}
+    b2 = {pn: a.id for pn, a in bind_args(inner[0], loader).items() if isinstance(a, ast.Name)}
+    pos_role = {}
+    for lp, role in roles.items():
+        sp = b2.get(lp)
+        outer = next((a for pn, a in b1.items() if pn == sp), None)
+        if outer not in names or names.count(outer) != 1:
+            ctx.undecided("P9", calls[0], "prepare_read_groups", "loader parameter %s is not fed by one element of the parser's result" % lp)
+            return
+        pos_role[role] = names.index(outer)
+    n = 0
+    sample = ["file", "T", "7", "9", ";"]
+    for k in range(2, len(fields) + 2):
+        given = sample[:k]
+        try:
+            got = staticeval.call_function(parser, [list(given)], funcs=staticeval.module_helpers(prog))
+        except staticeval.NoEval as e:
+            ctx.undecided("P9", parser, q, "parser not evaluable on %r (%s)" % (":".join(given), e))
+            return
+        if not isinstance(got, (tuple, list)) or len(got) != len(names):
+            ctx.undecided("P9", parser, q, "parser result on %r is not a %d-tuple" % (":".join(given), len(names)))
+            return
+        for i, fld in enumerate(fields):
+            n += 1
+            raw = given[i + 1] if i + 1 < k else None
+            want = defaults.get(fld) if raw is None else (int(raw) if DOC_ROLE[fld] in ("key", "value") else raw)
+            if raw is None and fld not in defaults:
+                continue
+            have = got[pos_role[DOC_ROLE[fld]]]
+            if have == want and type(have) is type(want):
+                ctx.ok("P9", "%s:%d" % (RG, parser.lineno), "%s of %s -> loader %s = %r" % (fld, ":".join(given), DOC_ROLE[fld], have))
+            else:
+                ctx.fail("P9", parser, q, "%s of %s" % (fld, ":".join(["file"] + fields[:k - 1])),
+                         "for --read_group %s the loader's %s parameter receives %r; docs/cmd.md (`file:%s`) assigns it %r%s: reads are "
+                         "looked up in / labelled from the wrong column" % (":".join(given), DOC_ROLE[fld], have, ":".join(fields), want,
+                                                                            " (the documented default)" if raw is None else ""))
+    ctx.floor("P9", "documented field x option arity cases", n, 12)
+
+
 def run(prog, ctx):
+    ctx.rule("P9", "the parser of `--read_group file:FILE:READ_COL:GROUP_COL:DELIM` (decision table over the documented arities) hands each "
+                   "field, or its documented default, to the load_table parameter that plays the documented role (key column = read ids, "
+                   "stored column = group ids, split delimiter, opened file)")
+    p9(prog, ctx)
     ctx.rule("P7", "file provenance: every make_alignment_tuple(i, a) in BAMOnlineMerger takes a from iterator number i of a sequence built "
                    "element-for-element from self.bam_pairs (or re-uses the index slot of the queue element it replaces); get() yields the "
                    "(index, alignment) slots; get_group_id(alignment, bam_pairs[i][1]) uses the (i, alignment) pair of its own loop")
